@@ -105,14 +105,13 @@ def run(ctx):
             guard = None
             kind = None
             decl = None
+            guard, nguard = pin_guard(p, dec)
             for k, v in dec:
-                if "contains_macro_use_attr(arg1)" in k and "contains_skip(arg1.attrs)" in k:
-                    guard = v
-                elif k == "discr(arg1.kind)":
+                if k == "discr(arg1.kind)":
                     kind = v
                 elif "is_mod_decl(arg1)" in k:
                     decl = v
-            first_is_guard = bool(dec) and "contains_skip(arg1.attrs)" in dec[0][0]
+            first_is_guard = nguard > 0 and not any(k == "discr(arg1.kind)" or "is_mod_decl(arg1)" in k for k, v in dec[:nguard])
             if guard is True:
                 want = "Other"
             elif kind == "ExternCrate":
@@ -191,13 +190,18 @@ def macro_use_barrier_by_name(ctx, rid):
                 "unchanged, or every predicate it is built from answers false only on paths on which `has_name(.., sym::macro_use)` "
                 "answered false — a predicate that looks at the form of the attribute first (word / list / name-value) lets the "
                 "list form through and the import order changes the meaning of the program")
-    f = p.named("contains_macro_use_attr", within="reorder")
-    if f is None:
-        r.undecidable(rid, "reorder::contains_macro_use_attr not found")
-        return
-
     def names_macro_use(c):
         return any(a[0] == "k" and isinstance(a[2], dict) and str(a[2].get("named", "")).endswith("sym::macro_use") for a in c.args)
+
+    f = p.named("contains_macro_use_attr", within="reorder")
+    if f is None:
+        # renamed or merged into another predicate: the barrier test is whichever function of reorder.rs names sym::macro_use
+        cands = [g for g in p.by_crate["rustfmt_nightly"] if short(g.id).startswith("reorder::") and any(names_macro_use(c) for c in g.calls())]
+        roots = sorted({g.id.split("::{closure")[0] for g in cands})
+        f = p.fns.get(roots[0]) if len(roots) == 1 else None
+    if f is None:
+        r.undecidable(rid, "no single function of reorder.rs tests the name macro_use")
+        return
 
     direct = [c for c in f.calls() if c.name.endswith("attr::contains_name") and names_macro_use(c)]
     rets = {expr_key(f, ["m", [0, []]])}
@@ -240,3 +244,40 @@ def macro_use_barrier_by_name(ctx, rid):
                         "answer depends on the form of the attribute (`#[macro_use(a, b)]`), and such an extern crate is reordered",
                         ["%s:%d" % (g.file, g.line)])
     r.floor(rid, len(preds), 1, "macro_use barrier predicates")
+
+
+def pin_guard(p, dec):
+    """The `#[macro_use] ∨ skip` guard of ReorderableItemKind::from among a path's decisions, in whatever form it is written:
+    `a | b` (one decision), `a || b` (two decisions), or a helper predicate h(item) whose false answer implies both are false.
+    Returns (True | False | None, number of leading decisions that belong to the guard)."""
+    from common import false_answer_implies_false
+    skip = mac = None
+    n = 0
+    for k, v in dec:
+        is_skip = "contains_skip(arg1.attrs" in k
+        is_mac = "contains_macro_use_attr(arg1)" in k or ("contains_name(" in k and "macro_use" in k)
+        if (is_skip or is_mac) and "BitAnd" not in k and "!" not in k:
+            n += 1
+            if v is True and not (is_skip and is_mac and "BitOr" not in k):
+                return True, n
+            if v is False:
+                if is_skip:
+                    skip = False
+                if is_mac:
+                    mac = False
+            continue
+        if k.endswith("(arg1)") and isinstance(v, bool):
+            name = k[:-len("(arg1)")]
+            hs = [h for h in p.by_crate["rustfmt_nightly"] if h.id.endswith(name) and h.kind != "Closure"]
+            if len(hs) == 1 and false_answer_implies_false(p, hs[0], ["contains_skip(arg1.attrs"]) and (
+                    false_answer_implies_false(p, hs[0], ["contains_macro_use_attr(arg1)"])
+                    or false_answer_implies_false(p, hs[0], ["macro_use"])):
+                n += 1
+                if v is True:
+                    return True, n
+                skip = mac = False
+                continue
+        break
+    if skip is False and mac is False:
+        return False, n
+    return None, n
